@@ -805,3 +805,386 @@ Proof.
         rewrite H. exact HR.
     + inv H. cbn [comments]. apply Permutation_app_head. exact HR.
 Qed.
+
+(* ---------- decidable equality helper (for the refutations) ---------- *)
+
+Lemma hdr_eqb_refl h : hdr_eqb h h = true.
+Proof.
+  unfold hdr_eqb. rewrite !String.eqb_refl, N.eqb_refl. reflexivity.
+Qed.
+
+Lemma cnode_eqb_refl : forall n, cnode_eqb n n = true.
+Proof.
+  induction n as [h v|h v|h kvs IH|h es IH] using cnode_ind'; cbn [cnode_eqb].
+  - rewrite hdr_eqb_refl, String.eqb_refl. reflexivity.
+  - rewrite hdr_eqb_refl, String.eqb_refl. reflexivity.
+  - rewrite hdr_eqb_refl. cbn [andb].
+    induction IH as [|kv t [H1 H2] _ IHt]; auto. rewrite H1, H2, IHt. reflexivity.
+  - rewrite hdr_eqb_refl. cbn [andb].
+    induction IH as [|e t H1 _ IHt]; auto. rewrite H1, IHt. reflexivity.
+Qed.
+
+Lemma cnode_neq a b : cnode_eqb a b = false -> a <> b.
+Proof. intros H E. subst b. rewrite cnode_eqb_refl in H. discriminate. Qed.
+
+(* ---------- witnesses (the same documents are replayed on the implementation: corpus/C20) ---------- *)
+
+Definition hd0 : hdr := mkHdr "" "" "" "" "" 0.
+Definition ws (v : string) : cnode := CScalar hd0 v.
+Definition wm (kvs : list (string * cnode)) : cnode := CMap hd0 (map (fun kv => (ws (fst kv), snd kv)) kvs).
+Definition wq (es : list cnode) : cnode := CSeq hd0 es.
+
+Definition wit_deployment (containers : cnode) : cnode :=
+  wm [("apiVersion", ws "apps/v1"); ("kind", ws "Deployment");
+      ("spec", wm [("template", wm [("spec", wm [("containers", containers)])])])].
+
+(* containers: [ {name: a}, [ {name: b}, name, v ] ]  — a list inside the keyed whitelisted list *)
+Definition wit_nested_seq : cnode :=
+  wit_deployment (wq [wm [("name", ws "a")]; wq [wm [("name", ws "b")]; ws "name"; ws "v"]]).
+
+(* containers: [ [name], [name] ] *)
+Definition wit_panic : cnode := wit_deployment (wq [wq [ws "name"]; wq [ws "name"]]).
+
+(* containers: [ {name: c, zz: 1, name: a}, {name: b} ]  — the sort field twice in one element *)
+Definition wit_dup_sortfield : cnode :=
+  wit_deployment (wq [wm [("name", ws "c"); ("zz", ws "1"); ("name", ws "a")]; wm [("name", ws "b")]]).
+
+Theorem fmt_idem_refuted : forall nonstr, exists n n1 n2,
+  wf_keys n = true /\
+  filter_doc nonstr isort SNil n = Ok n1 /\ filter_doc nonstr isort SNil n1 = Ok n2 /\ n1 <> n2.
+Proof.
+  intros nonstr. exists wit_nested_seq. eexists. eexists.
+  split; [vm_compute; reflexivity|].
+  split; [vm_compute; reflexivity|].
+  split; [vm_compute; reflexivity|].
+  apply cnode_neq. vm_compute. reflexivity.
+Qed.
+
+Theorem fmt_no_panic_refuted : forall nonstr, exists n,
+  wf_keys n = true /\ filter_doc nonstr isort SNil n = Panic.
+Proof.
+  intros nonstr. exists wit_panic. split; vm_compute; reflexivity.
+Qed.
+
+(* with a sort that meets (S1) but is not stable, duplicate sort fields break idempotence *)
+Theorem fmt_idem_S1_refuted : forall nonstr, exists srt, S1 srt /\ exists n n1 n2,
+  keyed_ok "Deployment" "apps/v1" "" n = true /\
+  filter_doc nonstr srt SNil n = Ok n1 /\ filter_doc nonstr srt SNil n1 = Ok n2 /\ n1 <> n2.
+Proof.
+  intros nonstr. exists rsort. split; [apply rsort_S1|].
+  exists wit_dup_sortfield. eexists. eexists.
+  split; [vm_compute; reflexivity|].
+  split; [vm_compute; reflexivity|].
+  split; [vm_compute; reflexivity|].
+  apply cnode_neq. vm_compute. reflexivity.
+Qed.
+
+(* the hypotheses of the positive theorems are met by a document that really gets reordered *)
+Definition wit_ordinary : cnode :=
+  wm [("zeta", ws "1"); ("kind", ws "Deployment");
+      ("spec", wm [("template", wm [("spec", wm [("containers",
+          wq [wm [("name", ws "b"); ("image", ws "x")]; wm [("image", ws "y"); ("name", ws "a")]])])])]);
+      ("apiVersion", ws "apps/v1"); ("alpha", ws "2")].
+
+Example wit_ordinary_nonvacuous : forall nonstr,
+  keyed_ok "Deployment" "apps/v1" "" wit_ordinary = true /\ wf_keys wit_ordinary = true /\
+  exists n1, filter_doc nonstr isort SNil wit_ordinary = Ok n1 /\ n1 <> wit_ordinary.
+Proof.
+  intros nonstr. split; [vm_compute; reflexivity|]. split; [vm_compute; reflexivity|].
+  eexists. split; [vm_compute; reflexivity|]. apply cnode_neq. vm_compute. reflexivity.
+Qed.
+
+(* ---------- Less is a strict total order on field names ---------- *)
+
+Theorem less_key_order :
+  (forall a, less_key a a = false) /\
+  (forall a b c, less_key a b = true -> less_key b c = true -> less_key a c = true) /\
+  (forall a b, less_key a b = true -> less_key b a = false) /\
+  (forall a b, a <> b -> less_key a b = true \/ less_key b a = true).
+Proof.
+  pose proof less_key_strict_total as H. repeat split.
+  - apply (st_irrefl _ H).
+  - apply (st_trans _ H).
+  - apply (st_asym _ H).
+  - intros a b Hab. destruct (less_key a b) eqn:E1; auto. destruct (less_key b a) eqn:E2; auto.
+    exfalso. apply Hab. apply (st_total _ H); auto.
+Qed.
+
+(* known names come before unknown ones, and unknown ones are in byte order *)
+Theorem less_key_shape a b :
+  (field_order a <> None -> field_order b = None -> less_key a b = true) /\
+  (field_order a = None -> field_order b = None -> less_key a b = String.ltb a b).
+Proof.
+  unfold less_key, less_rank. split.
+  - intros Ha Hb. destruct (field_order a); [|congruence]. rewrite Hb. reflexivity.
+  - intros Ha Hb. rewrite Ha, Hb. reflexivity.
+Qed.
+
+(* ---------- FormatNonStringStyle ---------- *)
+
+Theorem schema_quote nonstr (h : hdr) (v : string) :
+  (* the scalar text is never touched; only Style and Tag may change (see fmt_scalar_sim) *)
+  (forall types format, nonstr v = false -> fmt_nonstring nonstr types format h v = h) /\
+  (* string-typed position, text that YAML 1.1 would read as a non-string: quoted afterwards *)
+  (forall format, nonstr v = true -> String.eqb format "int-or-string" = false ->
+     String.eqb (h_tag h) node_tag_null = false ->
+     let h' := fmt_nonstring nonstr ["string"] format h v in
+     style_quoted (h_style h') = true /\ h_tag h' = "!!str") /\
+  (* boolean / integer / number position: never left quoted, tagged with the schema type *)
+  (forall t format tg, nonstr v = true ->
+     (t = "boolean" \/ t = "integer" \/ t = "number") -> assoc_str t type_to_tag = Some tg ->
+     String.eqb (h_tag h) node_tag_null = false ->
+     let h' := fmt_nonstring nonstr [t] format h v in
+     style_quoted (h_style h') = false /\ h_tag h' = tg) /\
+  (* a null stays an unquoted null *)
+  (forall t format, nonstr v = true -> String.eqb (h_tag h) node_tag_null = true ->
+     (t = "string" /\ String.eqb format "int-or-string" = false \/ t = "boolean" \/ t = "integer" \/ t = "number") ->
+     let h' := fmt_nonstring nonstr [t] format h v in
+     h_style h' = 0%N /\ h_tag h' = h_tag h) /\
+  (* a string stays a string at a string-typed position *)
+  (forall format, style_quoted (h_style h) = true \/ nonstr v = false ->
+     String.eqb (h_tag h) node_tag_null = false ->
+     let h' := fmt_nonstring nonstr ["string"] format h v in
+     style_quoted (h_style h') = true \/ nonstr v = false).
+Proof.
+  repeat split.
+  - intros types format N. unfold fmt_nonstring. destruct types as [|t [|t2 ts]]; auto. rewrite N. reflexivity.
+  - unfold fmt_nonstring. rewrite H, H0. cbn [negb andb String.eqb Ascii.eqb Bool.eqb].
+    set (h1 := if style_quoted (h_style h) then h else set_style h style_double).
+    assert (T1 : String.eqb (h_tag h1) node_tag_null = false) by (subst h1; destruct (style_quoted (h_style h)); auto).
+    rewrite (fmt_nonstring_tail_quoted _ _ T1). subst h1. destruct (style_quoted (h_style h)) eqn:Q; auto.
+  - unfold fmt_nonstring. rewrite H, H0. cbn [negb andb String.eqb Ascii.eqb Bool.eqb].
+    set (h1 := if style_quoted (h_style h) then h else set_style h style_double).
+    assert (T1 : String.eqb (h_tag h1) node_tag_null = false) by (subst h1; destruct (style_quoted (h_style h)); auto).
+    unfold fmt_nonstring_tail. rewrite T1. vm_compute assoc_str. reflexivity.
+  - unfold fmt_nonstring. rewrite H.
+    assert (E : String.eqb t "string" = false) by (destruct H0 as [->|[->| ->]]; reflexivity).
+    assert (E2 : String.eqb t "boolean" || String.eqb t "integer" || String.eqb t "number" = true)
+      by (destruct H0 as [->|[->| ->]]; reflexivity).
+    rewrite E, E2. cbn [negb andb].
+    set (h1 := if style_quoted (h_style h) then set_style h 0%N else h).
+    assert (T1 : String.eqb (h_tag h1) node_tag_null = false) by (subst h1; destruct (style_quoted (h_style h)); auto).
+    rewrite (fmt_nonstring_tail_quoted _ _ T1). subst h1. destruct (style_quoted (h_style h)) eqn:Q; auto.
+  - unfold fmt_nonstring. rewrite H.
+    assert (E : String.eqb t "string" = false) by (destruct H0 as [->|[->| ->]]; reflexivity).
+    assert (E2 : String.eqb t "boolean" || String.eqb t "integer" || String.eqb t "number" = true)
+      by (destruct H0 as [->|[->| ->]]; reflexivity).
+    rewrite E, E2. cbn [negb andb].
+    set (h1 := if style_quoted (h_style h) then set_style h 0%N else h).
+    assert (T1 : String.eqb (h_tag h1) node_tag_null = false) by (subst h1; destruct (style_quoted (h_style h)); auto).
+    unfold fmt_nonstring_tail. rewrite T1, H1. reflexivity.
+  - unfold fmt_nonstring. rewrite H. cbn [negb].
+    destruct H1 as [[-> F]|H1].
+    + rewrite F. cbn [negb andb String.eqb Ascii.eqb Bool.eqb].
+      rewrite fmt_nonstring_tail_null; [reflexivity|]. destruct (style_quoted (h_style h)); auto.
+    + assert (E : String.eqb t "string" = false) by (destruct H1 as [->|[->| ->]]; reflexivity).
+      assert (E2 : String.eqb t "boolean" || String.eqb t "integer" || String.eqb t "number" = true)
+        by (destruct H1 as [->|[->| ->]]; reflexivity).
+      rewrite E, E2. cbn [negb andb].
+      rewrite fmt_nonstring_tail_null; [reflexivity|]. destruct (style_quoted (h_style h)); auto.
+  - unfold fmt_nonstring. rewrite H. cbn [negb].
+    destruct H1 as [[-> F]|H1].
+    + rewrite F. cbn [negb andb String.eqb Ascii.eqb Bool.eqb].
+      rewrite fmt_nonstring_tail_null; [|destruct (style_quoted (h_style h)); auto].
+      destruct (style_quoted (h_style h)); reflexivity.
+    + assert (E : String.eqb t "string" = false) by (destruct H1 as [->|[->| ->]]; reflexivity).
+      assert (E2 : String.eqb t "boolean" || String.eqb t "integer" || String.eqb t "number" = true)
+        by (destruct H1 as [->|[->| ->]]; reflexivity).
+      rewrite E, E2. cbn [negb andb].
+      rewrite fmt_nonstring_tail_null; [|destruct (style_quoted (h_style h)); auto].
+      destruct (style_quoted (h_style h)); reflexivity.
+  - intros format [Q|N] T.
+    + left. unfold fmt_nonstring. destruct (nonstr v); cbn [negb]; auto.
+      destruct (String.eqb format "int-or-string"); cbn [negb andb String.eqb Ascii.eqb Bool.eqb orb]; auto.
+      rewrite Q. rewrite (fmt_nonstring_tail_quoted _ _ T). exact Q.
+    + right. exact N.
+Qed.
+
+(* ---------- the opt-out annotation, and documents without type information ---------- *)
+
+Theorem filter_doc_optout nonstr srt s n v :
+  lookup_fields ["metadata"; "annotations"; fmt_annotation] n = Ok (Some v) ->
+  cvalue v = fmt_strategy_none ->
+  filter_doc nonstr srt s n = Ok n.
+Proof.
+  intros L V. unfold filter_doc, get_strategy. rewrite L. cbn [bind]. rewrite V.
+  vm_compute (String.eqb fmt_strategy_none fmt_strategy_standard).
+  rewrite String.eqb_refl. reflexivity.
+Qed.
+
+Theorem filter_doc_untyped nonstr srt s n :
+  get_strategy n = Ok StStandard ->
+  get_field "kind" n = Ok None \/ (exists k, get_field "kind" n = Ok (Some k)) /\ get_field "apiVersion" n = Ok None ->
+  filter_doc nonstr srt s n = Ok n.
+Proof.
+  intros G [K|[[k K] A]]; unfold filter_doc; rewrite G; cbn [bind]; rewrite K; cbn [bind]; auto.
+  rewrite A. reflexivity.
+Qed.
+
+(* ---------- canonical form: documents that differ only in the order of their fields ---------- *)
+
+(* [mperm a b]: b is a with the pairs of its mappings (recursively) in another order; lists keep
+   their order *)
+Inductive mperm : cnode -> cnode -> Prop :=
+| mp_scalar h v : mperm (CScalar h v) (CScalar h v)
+| mp_alias h v : mperm (CAlias h v) (CAlias h v)
+| mp_map h kvs mid kvs' :
+    Permutation kvs mid ->
+    Forall2 (fun a b => mperm (fst a) (fst b) /\ mperm (snd a) (snd b)) mid kvs' ->
+    mperm (CMap h kvs) (CMap h kvs')
+| mp_seq h es es' : Forall2 mperm es es' -> mperm (CSeq h es) (CSeq h es').
+
+Lemma mperm_cvalue a b : mperm a b -> cvalue a = cvalue b.
+Proof. destruct 1; reflexivity. Qed.
+
+Lemma scan_field_cvalue f l l' acc :
+  Forall2 (fun a b => cvalue a = cvalue b) l l' -> scan_field f l acc = scan_field f l' acc.
+Proof.
+  assert (G : forall n l l' acc, (List.length l <= n)%nat ->
+            Forall2 (fun a b => cvalue a = cvalue b) l l' -> scan_field f l acc = scan_field f l' acc).
+  { induction n as [|n IH]; intros l0 l0' acc0 L H.
+    - destruct l0; [|cbn in L; lia]. inversion H; subst. reflexivity.
+    - inversion H as [|k k' r r' Hk Hr]; subst; [reflexivity|].
+      inversion Hr as [|v v' r2 r2' Hv Hr2]; subst; cbn.
+      + rewrite Hk. reflexivity.
+      + rewrite Hk, Hv. apply IH; [cbn in L; lia|exact Hr2]. }
+  intros H. eapply G; eauto.
+Qed.
+
+Lemma perm_NoDup_map {A B} (g : A -> B) l l' : Permutation l l' -> NoDup (map g l) -> NoDup (map g l').
+Proof. intros P. apply Permutation_NoDup. apply Permutation_map. exact P. Qed.
+
+Lemma mperm_seq_key f a b : mperm a b -> wf_keys a = true -> seq_key f a = seq_key f b.
+Proof.
+  intros M W. destruct (String.eqb f "") eqn:Ef.
+  - unfold seq_key. rewrite Ef. rewrite (mperm_cvalue _ _ M). reflexivity.
+  - destruct M as [h v|h v|h kvs mid kvs' P F|h es es' F]; auto.
+    + rewrite !seq_key_map by exact Ef. f_equal. f_equal.
+      apply wf_keys_map in W. destruct W as [Nd _].
+      assert (E1 : kv_strs kvs' = kv_strs mid).
+      { clear - F. unfold kv_strs. induction F as [|a b t t' [M1 M2] _ IH]; cbn; auto.
+        rewrite IH, (mperm_cvalue _ _ M1), (mperm_cvalue _ _ M2). reflexivity. }
+      rewrite E1. apply perm_filter_unique.
+      * unfold kv_strs. rewrite map_map. cbn.
+        eapply perm_NoDup_map; [exact P|exact Nd].
+      * unfold kv_strs. apply Permutation_map. exact P.
+    + unfold seq_key. rewrite Ef. cbn [content]. apply scan_field_cvalue.
+      clear - F. induction F; constructor; auto. apply mperm_cvalue. auto.
+Qed.
+
+Lemma Forall2_perm_l {A B} (R : A -> B -> Prop) l1 l1' l2 :
+  Forall2 R l1 l2 -> Permutation l1 l1' -> exists l2', Permutation l2 l2' /\ Forall2 R l1' l2'.
+Proof.
+  intros HF HP. revert l2 HF. induction HP; intros l2 HF.
+  - inversion HF; subst. exists []. auto.
+  - inversion HF as [|a b la lb Hab Hrest]; subst.
+    destruct (IHHP _ Hrest) as [m [P F]]. exists (b :: m). auto.
+  - inversion HF as [|a b la lb Hab Hrest]; subst.
+    inversion Hrest as [|a2 b2 la2 lb2 Hab2 Hrest2]; subst.
+    exists (b2 :: b :: lb2). split; [apply perm_swap|]. auto.
+  - destruct (IHHP1 _ HF) as [m [P F]]. destruct (IHHP2 _ F) as [m' [P' F']].
+    exists m'. split; auto. etransitivity; eauto.
+Qed.
+
+Lemma S1_perm_unique srt : S1 srt ->
+  forall (B : Type) cmp, strict_total cmp -> forall l l' : list (string * B),
+    NoDup (map fst l) -> Permutation l l' -> srt _ (lt_fst cmp) l = srt _ (lt_fst cmp) l'.
+Proof.
+  intros H B cmp ST l l' Hnd HP.
+  destruct (H B cmp ST l) as [P [S _]]. destruct (H B cmp ST l') as [P' [S' _]].
+  apply (sorted_perm_unique cmp ST); auto.
+  - rewrite P, HP. symmetry. exact P'.
+  - eapply perm_NoDup_map; [apply Permutation_sym; exact P|exact Hnd].
+Qed.
+
+Section Canonical.
+  Variable nonstr : string -> bool.
+  Variable srt : sorter.
+  Variables kind api : string.
+  Hypothesis HS1 : S1 srt.
+
+  Theorem fmt_canonical : forall n1 n2 s p a b,
+    mperm n1 n2 -> wf_keys n1 = true ->
+    fmt_node nonstr srt kind api s p n1 = Ok a -> fmt_node nonstr srt kind api s p n2 = Ok b -> a = b.
+  Proof.
+    induction n1 as [h v|h v|h kvs IH|h es IH] using cnode_ind'; intros n2 s p a b M W Ha Hb.
+    - inv M. congruence.
+    - inv M. congruence.
+    - inversion M as [| |? ? mid kvs' H1 H3|]; subst. rewrite fmt_map_eq in Ha, Hb.
+      apply bind_ok in Ha. destruct Ha as [D1 [HD1 Ha]]. inv Ha.
+      apply bind_ok in Hb. destruct Hb as [D2 [HD2 Hb]]. inv Hb.
+      apply fpairs_ok in HD1, HD2.
+      apply wf_keys_map in W. destruct W as [Nd Wf].
+      destruct (Forall2_perm_l _ _ _ _ HD1 H1) as [Dm [PD FDm]].
+      assert (IHm : Forall (fun kv =>
+                 (wf_keys (fst kv) = true /\ wf_keys (snd kv) = true) /\
+                 (forall n2 s p a b, mperm (fst kv) n2 -> wf_keys (fst kv) = true ->
+                    fmt_node nonstr srt kind api s p (fst kv) = Ok a ->
+                    fmt_node nonstr srt kind api s p n2 = Ok b -> a = b) /\
+                 (forall n2 s p a b, mperm (snd kv) n2 -> wf_keys (snd kv) = true ->
+                    fmt_node nonstr srt kind api s p (snd kv) = Ok a ->
+                    fmt_node nonstr srt kind api s p n2 = Ok b -> a = b)) mid).
+      { eapply Forall_perm; [exact H1|]. rewrite Forall_forall in *. intros kv Hin. split; [auto|apply (IH kv Hin)]. }
+      assert (EQ : Dm = D2).
+      { clear - FDm HD2 H3 IHm. revert Dm D2 FDm HD2 IHm.
+        induction H3 as [|x y t t' [M1 M2] _ IHF]; intros Dm D2 FDm HD2 IHm.
+        - inversion FDm; subst. inversion HD2; subst. reflexivity.
+        - inversion FDm as [|? d1 ? Dm' [A1 [A2 A3]] FDm']; subst.
+          inversion HD2 as [|? d2 ? D2' [B1 [B2 B3]] HD2']; subst.
+          inversion IHm as [|? ? [[W1 W2] [I1 I2]] IHm']; subst.
+          f_equal; [|eapply IHF; eauto].
+          destruct d1 as [k1 [x1 v1]], d2 as [k2 [x2 v2]]. cbn in *. subst k1 k2.
+          pose proof (mperm_cvalue _ _ M1) as Cv. rewrite <- Cv in *.
+          rewrite (I1 _ _ _ _ _ M1 W1 A2 B2), (I2 _ _ _ _ _ M2 W2 A3 B3). reflexivity. }
+      subst D2. f_equal. f_equal.
+      apply (S1_perm_unique srt HS1 _ less_key less_key_strict_total); auto.
+      assert (map fst D1 = key_values kvs).
+      { clear - HD1. unfold key_values. induction HD1 as [|kv d t D' [R1 _] _ IHd]; cbn; congruence. }
+      rewrite H. exact Nd.
+    - inversion M as [| | |? ? es' F]; subst. rewrite fmt_seq_eq in Ha, Hb.
+      apply bind_ok in Ha. destruct Ha as [E1 [HE1 Ha]].
+      apply bind_ok in Hb. destruct Hb as [E2 [HE2 Hb]].
+      apply felems_ok in HE1, HE2.
+      pose proof (wf_keys_seq _ _ W) as Wf.
+      assert (EQ : E1 = E2).
+      { clear - HE1 HE2 F IH Wf. revert E1 E2 HE1 HE2 IH Wf.
+        induction F as [|x y t t' M _ IHF]; intros E1 E2 HE1 HE2 IH Wf.
+        - inversion HE1; subst. inversion HE2; subst. reflexivity.
+        - inversion HE1 as [|? e1 ? E1' A1 HE1']; subst.
+          inversion HE2 as [|? e2 ? E2' B1 HE2']; subst.
+          inversion IH as [|? ? I1 IH']; subst. inversion Wf as [|? ? W1 Wf']; subst.
+          f_equal; [|eapply IHF; eauto].
+          exact (I1 _ _ _ _ _ M W1 A1 B1). }
+      subst E2.
+      destruct (sort_field kind api p) as [f|] eqn:SF; [|congruence].
+      assert (KEQ : seq_keys f es = seq_keys f es').
+      { unfold seq_keys. rewrite (Forall2_length' _ _ _ F).
+        destruct (2 <=? List.length es')%nat.
+        - clear - F Wf. induction F as [|x y t t' M _ IHF]; cbn; auto.
+          inversion Wf as [|? ? W1 Wf']; subst.
+          rewrite (mperm_seq_key f _ _ M W1), IHF; auto.
+        - clear - F. induction F; cbn; congruence. }
+      rewrite KEQ in Ha. congruence.
+  Qed.
+End Canonical.
+
+(* non-vacuity: two different orderings of the same fields *)
+Example mperm_example :
+  mperm (wm [("zeta", ws "1"); ("kind", ws "K"); ("apiVersion", ws "v1")])
+        (wm [("apiVersion", ws "v1"); ("zeta", ws "1"); ("kind", ws "K")]).
+Proof.
+  unfold wm. cbn [map fst snd].
+  eapply mp_map with (mid := [(ws "apiVersion", ws "v1"); (ws "zeta", ws "1"); (ws "kind", ws "K")]).
+  - apply Permutation_sym. apply (Permutation_cons_app [_; _] []). cbn. apply Permutation_refl.
+  - repeat constructor.
+Qed.
+
+(* ---------- obligations over the generated tables ---------- *)
+
+(* the whitelist of sorted lists has one entry per path (first-match lookup = Go's map lookup) *)
+Lemma Gen_wl_fields_functional : nodup_strs (map fst wl_fields) = true.
+Proof. vm_compute. reflexivity. Qed.
+
+(* the constants the model compares annotation values with are distinct *)
+Lemma Gen_fmt_strategies_distinct : String.eqb fmt_strategy_none fmt_strategy_standard = false.
+Proof. vm_compute. reflexivity. Qed.
